@@ -570,3 +570,46 @@ pub fn prop() -> Prop {
         ],
     }
 }
+
+/// Entry for the coverage-guided fuzz target (/verif/fuzz): the bytes drive the same case
+/// functions through `Src::from_bytes`; a violation is written as an ordinary tape replay
+/// (`./check C03 --replay <file>`) before the process panics for libFuzzer.
+#[allow(dead_code)]
+pub fn fuzz_one(data: &[u8]) {
+    if data.len() < 2 {
+        return;
+    }
+    let p = prop();
+    let part = &p.parts[data[0] as usize % p.parts.len()];
+    let mut src = Src::from_bytes(&data[1..]);
+    let mut ctx = Ctx::new(false, std::sync::Arc::new(vkit::runner::open_keys("C03")), false);
+    let r = vkit::runner::guarded(|| (part.case)(&mut src, &mut ctx));
+    let fail = match r {
+        Ok(Ok(())) => return,
+        Ok(Err(f)) => f,
+        Err(p) if vkit::runner::panic_in_smoltcp(&p) => Fail::new(vkit::runner::panic_key(&p), format!("smoltcp panicked at {}:{}: {}", p.file, p.line, p.msg)),
+        Err(p) => panic!("harness panic at {}:{}: {}", p.file, p.line, p.msg),
+    };
+    vkit::runner::fuzz_violation("C03", part.name, &src.used(), &fail);
+}
+
+/// Seed corpus for the fuzz target: generated cases of every part, encoded so that
+/// `Src::from_bytes` reproduces them draw for draw.
+#[allow(dead_code)]
+pub fn fuzz_seeds(dir: &str, per_part: usize, seed: u64) -> usize {
+    let p = prop();
+    let mut n = 0;
+    for (pi, part) in p.parts.iter().enumerate() {
+        for k in 0..per_part {
+            let mut src = Src::generate(vkit::tape::mix(seed, part.name, k as u64));
+            let mut ctx = Ctx::new(false, std::sync::Arc::new(vkit::runner::open_keys("C03")), false);
+            let _ = vkit::runner::guarded(|| (part.case)(&mut src, &mut ctx));
+            let mut b = vec![pi as u8];
+            b.extend(src.to_bytes());
+            if b.len() <= 4096 && std::fs::write(format!("{}/c03-{}-{:03}", dir, part.name, k), &b).is_ok() {
+                n += 1;
+            }
+        }
+    }
+    n
+}
